@@ -212,9 +212,11 @@ def run(ctx: Check, tree: Tree) -> None:
                 guard = next(a for a in _ancestors(value) if isinstance(a, ast.If))
                 gtxt = unparse(guard.test)
                 rd_ok = "non_sympy" in gtxt or "sympify" in gtxt
-                if isinstance(guard.test, ast.UnaryOp) and isinstance(guard.test.op, ast.Not):
+                negated = isinstance(guard.test, ast.UnaryOp) and isinstance(guard.test.op, ast.Not)
+                in_else = not any(value is n for st in guard.body for n in ast.walk(st))
+                if negated != in_else:
                     rd_ok = False
-                if not rd_ok:
+                elif not rd_ok:
                     # look at the definition of the tested name
                     rd_ok = _guard_is_nonsympy(tree, impl, guard.test)
                 ctx.verdict(
